@@ -219,7 +219,7 @@ def wl_params(tier, seed):
             bufs = [rng.choice(gen.BUF_PARAMS) for _ in range(3)]
             reopen = rng.choice(gen.REOPEN_PARAMS)
             out.append(gen.gen_params(hseed, idbase=i * IDSTEP, nops=180 if tier == "quick" else 500, buckets=bk, bufs=bufs, reopen=reopen,
-                                      kt=gen.KTS[h % 2], name="params_h%d_c%d" % (h, c)))
+                                      kt=["bytes", "u64", "string", "i64", "vu64"][h % 5], name="params_h%d_c%d" % (h, c)))
             i += 1
     # dedicated scenario of known finding D9: a PerMille(<1000) buffer on a file that passes one chunk
     out.append(gen.gen_params(seed * 1000 + 699, idbase=i * IDSTEP, nops=120, buckets=["BucketsSize", 8],
